@@ -11,6 +11,7 @@ ORACLE_OF = {
     'C09': ['world-threaded-through-hooks-and-steps', 'world-created-at-most-once-and-only-when-needed', 'no-panic-escapes-the-attempt', 'reference-applicable'],
     'C01': ['failed-events-say-retried-iff-the-attempt-is-retried', 'reference-applicable'],
     'C05': ['attempt-reported-failed-and-retried-correctly', 'no-panic-escapes-the-attempt', 'retry-delay-counted-from-the-end-of-the-attempt', 'reference-applicable'],
+    'C03': ['attempt-reported-failed-and-retried-correctly', 'reference-applicable'],
     # fail-fast acts on the `failed` flag an attempt reports when it ends
     'C08': ['attempt-reported-failed-and-retried-correctly', 'no-panic-escapes-the-attempt', 'reference-applicable'],
     'C10': ['no-panic-escapes-the-attempt', 'failed-events-carry-the-payload', 'canonical-event-sequence', 'attempt-reported-failed-and-retried-correctly'],
@@ -22,6 +23,9 @@ def shapes(tier):
     out = [S(fbg=0, rbg=0, steps=2, before=False, after=False), S(fbg=1, rbg=0, steps=1, before=True, after=True),
            S(fbg=0, rbg=1, steps=1, before=False, after=True, retries=(0, 1)), S(fbg=0, rbg=0, steps=0, before=True, after=True)]
     out.append(S(fbg=0, rbg=0, steps=1, before=False, after=True, retries=(0, 1), delay=True))
+    # a feature background AND a rule background in front of the scenario's own step: the first step that does not pass
+    # (wherever it sits) ends the steps of the attempt
+    out.append(S(fbg=1, rbg=1, steps=1, before=False, after=False))
     if tier == 'thorough':
         out += [S(fbg=1, rbg=1, steps=2, before=True, after=True, retries=(1, 0)), S(fbg=2, rbg=0, steps=2, before=False, after=True),
                 S(fbg=0, rbg=0, steps=3, before=True, after=False, retries=(0, 2))]
@@ -103,13 +107,16 @@ def run_pair(chk, prop):
     from checks import replay
     pends = (1, 2) if chk.tier == 'thorough' else (1,)
     S = attempt.Shape
-    shapes_ = [S(fbg=0, rbg=0, steps=1, before=False, after=False)] + ([S(fbg=0, rbg=0, steps=1, before=True, after=True)] if chk.tier == 'thorough' else [])
+    shapes_ = [S(fbg=0, rbg=0, steps=1, before=False, after=False), S(fbg=0, rbg=0, steps=0, before=True, after=True)] + \
+        ([S(fbg=0, rbg=0, steps=1, before=True, after=True)] if chk.tier == 'thorough' else [])
     o = chk.add(Obligation('%s.attempt-pair.panic-hook-left-as-found-under-interleaving' % prop,
                            'two real run_scenario coroutines of %d shape(s) polled in turns, user futures pending %s polls, every outcome (pass / panic when polled / panic when called), '
                            'World::new ok / Err / panic; panic hook automaton (original / default / silenced / taken-and-restored)' % (len(shapes_), pends)))
     o.verdict = 'holds'
     o2 = chk.add(Obligation('%s.attempt-pair.every-step-resolved-as-itself' % prop, o.bound))
     o2.verdict = 'holds'
+    o3 = chk.add(Obligation('%s.attempt-pair.no-world-crosses-over-between-attempts' % prop, o.bound))
+    o3.verdict = 'holds'
     n = 0
     for shape in shapes_:
         for pend in pends:
@@ -133,6 +140,16 @@ def run_pair(chk, prop):
                 if reused and o2.verdict != 'violated':
                     o2.verdict = 'violated'
                     o2.detail = 'step(s) %s (same text as a step of the other scenario, keyword type of their own) got a result without being looked up in the step collection' % reused
+                # no World crosses over: the after hook of a scenario gets the World that scenario's before hook was given
+                seen = {}
+                for e_ in tl_:
+                    if e_[0] == 'call' and e_[1] in ('before', 'after') and len(e_) > 6:
+                        seen.setdefault(e_[6], {})[e_[1]] = e_[2]
+                for sc_, d_ in seen.items():
+                    if 'before' in d_ and 'after' in d_ and d_['after'] != d_['before'] and o3.verdict != 'violated':
+                        o3.verdict = 'violated'
+                        o3.detail = 'the after hook of %s received World %s, its before hook had been given World %s (two attempts interleaved)' % (sc_, d_['after'], d_['before'])
+                        o3.res, o3.shape = res, shape
                 bad = None
                 if res['hook_end'] != 'outer':
                     bad = 'after both attempts finished the process panic hook is %r, not the one that was in place when they started' % res['hook_end']
@@ -145,6 +162,8 @@ def run_pair(chk, prop):
     o.paths = n
     if o2.verdict == 'violated':
         confirm_reused_resolution(chk, o2, prop)
+    if o3.verdict == 'violated':
+        confirm_world_crossover(chk, o3, prop)
     if o.verdict == 'violated' and 'panic hook' in (o.detail or ''):
         # natively: two concurrent scenarios whose steps suspend, then a probe panic after the run must reach the hook
         # that was installed before it, and the run itself must not have called it
@@ -167,6 +186,32 @@ def run_pair(chk, prop):
             o.replay = path
             o.detail += ' | reproduced natively through the real runner: two interleaved failing scenarios, the pre-installed hook was called %s time(s) during the run and a probe panic after the run reached it %s time(s) (expected 0 and 1)' % (m.group(1), m.group(2))
     return o
+
+
+def confirm_world_crossover(chk, o, prop):
+    """native: two scenarios in flight whose before hooks panic (after their Worlds were created): each after hook must get
+    the World of its own scenario"""
+    import os
+    from checks import replay
+    lines = ['mode runner', 'hooks both', 'builder max_concurrent=2', 'feature', '| Feature: f', '|   Scenario: a', '|     Given sa', '|   Scenario: b', '|     Given sb',
+             'hook before a always_fail', 'hook before b always_fail', 'hook after a yields=0', 'hook after b yields=0']
+    d = os.path.join(common.EVID, 'replay')
+    os.makedirs(d, exist_ok=True)
+    path = os.path.join(d, '%s-attempt-pair-world-crossover.script' % prop)
+    r, out = replay.run_script('\n'.join(lines) + '\n', path, timeout=60)
+    chk.replays += 1
+    bw = dict(re.findall(r'LOG enter before_hook \[before:(\w+)\] call=\d+ world=(w\d+)', out))
+    aw = dict(re.findall(r'LOG enter after_hook \[after:(\w+)\] call=\d+ world=(w\d+)', out))
+    if r is None or not bw:
+        o.verdict = 'inconclusive'
+        o.detail += ' | native replay failed: %s' % out[-200:]
+    elif any(aw.get(k_) != v_ for k_, v_ in bw.items()):
+        chk.replay_files.append(path)
+        o.replay = path
+        o.detail += ' | reproduced natively through the real runner (two scenarios in flight, both before hooks panic): before hooks got %s, after hooks got %s' % (bw, aw)
+    else:
+        o.verdict = 'inconclusive'
+        o.detail += ' | not reproduced natively (each after hook received the World of its own scenario: %s)' % aw
 
 
 def confirm_reused_resolution(chk, o, prop):
@@ -330,7 +375,10 @@ def confirm(chk, o, prop, name):
         if name == 'canonical-event-sequence':
             # the real attempt's events (those of the attempt whose retry counters are the shape's) against the canonical sequence
             from checks import events as _events
-            ref = attempt.reference(shape, tl, _events.CukeIdx(chk.prog))
+            try:
+                ref = attempt.reference(shape, tl, _events.CukeIdx(chk.prog))
+            except (KeyError, IndexError):
+                ref = None
             rtag = ' r=%s' % ('-' if shape.retries is None else '%d/%d' % tuple(shape.retries))
 
             def native_name(e):
@@ -342,9 +390,9 @@ def confirm(chk, o, prop, name):
                 if e[3] == 'Failed':
                     return '%s[%s]:failed:%s' % (k, e[2], {'NotFound': 'notfound', 'AmbiguousMatch': 'ambiguous', 'Panic': 'panic'}[e[5]])
                 return '%s[%s]:%s' % (k, e[2], e[3].lower())
-            want = [native_name(e) for e in ref['events']]
+            want = [native_name(e) for e in ref['events']] if ref is not None else None
             got = [e.split(':scenario[s]:', 1)[1][:-len(rtag)].replace('+custom', '').replace('+unknown-type', '') for e in sc if e.endswith(rtag)]
-            if got != want:
+            if want is not None and got != want:
                 problems.append('the real attempt emits %s, canonical sequence %s' % (got, want))
         if name == 'failed-events-say-retried-iff-the-attempt-is-retried':
             # the last attempt that ran is final: its failure events must not announce a further retry
